@@ -60,6 +60,7 @@ import Avt.Lemmas.C11Pen
 import Avt.Lemmas.C11ParserNorm
 import Avt.Lemmas.C11Witness
 import Avt.Lemmas.C11Blank
+import Avt.Lemmas.C11Steps3
 
 namespace Avt.Props.C11
 open Avt Avt.Spec.C11 Avt.Lemmas.C11
@@ -70,13 +71,13 @@ open Avt Avt.Spec.C11 Avt.Lemmas.C11
     known exceptions, feeding `dump()` into a fresh terminal of the same size succeeds and yields a
     state with the same normal form. -/
 def C11_dump_full : Prop :=
-  ∀ s : Vt, Reach s → resizedOnAlt s.terminal = false → cursorStepFaithful s.terminal = true →
+  ∀ s : Vt, Lemmas.C11.Reach s → resizedOnAlt s.terminal = false → cursorStepFaithful s.terminal = true →
     ∃ r, restoreOf s = some r ∧ normD r = normD s
 
 /-- **C11, continuation half (stated, not proved in full).**  Equality of normal forms is preserved
     by every further character (and the two sides panic together). -/
 def C11_norm_sound : Prop :=
-  ∀ a b : Vt, Reach a → Reach b → normD a = normD b →
+  ∀ a b : Vt, Lemmas.C11.Reach a → Lemmas.C11.Reach b → normD a = normD b →
     ∀ c : Nat, (a.feed c).map normD = (b.feed c).map normD
 
 /-! ### proved fragments -/
@@ -185,21 +186,21 @@ theorem C11_norm_sound_feed_partial (a b : Vt) (ha : PInv a.parser = true) (hb :
     (a.feed c).map normD = (b.feed c).map normD :=
   norm_sound_feed a b ⟨ha, hb, ra, rb, congrArg Vt.parser h⟩ (congrArg Vt.terminal h) c hsimple
 
-theorem C11_reach_feedAll {s s' : Vt} (h : Reach s) (xs : List Nat) (hf : s.feedAll xs = some s') :
-    Reach s' := h.feedAll xs hf
+theorem C11_reach_feedAll {s s' : Vt} (h : Lemmas.C11.Reach s) (xs : List Nat) (hf : s.feedAll xs = some s') :
+    Lemmas.C11.Reach s' := h.feedAll xs hf
 
 /-- **the decomposition is right**: the two stated halves give the property as the text words it —
     after restoring from `dump()`, original and restored show the same through the public API now
     and after every continuation input (and panic together, i.e. never — C01). -/
-theorem C11_from_parts (hd : C11_dump_full) (hs : C11_norm_sound) (s : Vt) (hr : Reach s)
+theorem C11_from_parts (hd : C11_dump_full) (hs : C11_norm_sound) (s : Vt) (hr : Lemmas.C11.Reach s)
     (hcols : 1 ≤ s.terminal.cols) (hrows : 1 ≤ s.terminal.rows)
     (h2 : resizedOnAlt s.terminal = false) (h1 : cursorStepFaithful s.terminal = true) :
     ∃ r, restoreOf s = some r ∧
       ∀ xs : List Nat, (s.feedAll xs).map obs = (r.feedAll xs).map obs := by
   obtain ⟨r, hrs, hn⟩ := hd s hr h2 h1
-  have hrr : Reach r := Reach.restore hcols hrows hrs
+  have hrr : Lemmas.C11.Reach r := Lemmas.C11.Reach.restore hcols hrows hrs
   refine ⟨r, hrs, fun xs => ?_⟩
-  suffices H : ∀ (xs : List Nat) (a b : Vt), Reach a → Reach b → normD a = normD b →
+  suffices H : ∀ (xs : List Nat) (a b : Vt), Lemmas.C11.Reach a → Lemmas.C11.Reach b → normD a = normD b →
       (a.feedAll xs).map normD = (b.feedAll xs).map normD by
     have := H xs s r hr hrr hn.symm
     cases ha : s.feedAll xs with
@@ -241,6 +242,73 @@ theorem C11_cursorStepFaithful_inside (t : Terminal)
     Bool.and_eq_false_iff, Bool.or_eq_false_iff, decide_eq_false_iff_not]
   left
   rcases h with h | h
+  · exact Or.inl h
+  · exact Or.inr ⟨by omega, by omega⟩
+
+
+/-! ### the buffer part and the primary-screen end-to-end theorem -/
+
+/-- **`Buffer::dump` round trip** (dump step 1 and, for the alternate screen, step 4): for ANY buffer `b`
+    satisfying the buffer invariant whose cells hold characters the parser prints and pens `Pen::dump`
+    can write, and ANY terminal `t0` of the same size that is in the modes in force while the buffer part
+    of a dump is replayed (`DMode`: full-screen margins, auto-wrap on, replace mode, ASCII in G0 and G0
+    active), shows a blank screen, has the cursor home and the default pen: feeding `Buffer.dump b`
+    — pen runs as SGR sequences, runs of equal characters as `c ESC [ n b` (REP), CR LF after unwrapped
+    rows only — from any parser resting in Ground succeeds and yields a terminal whose view IS `b.view`
+    (cells, pens, soft-wrap marks; rows below the cut-off stay blank) and that differs from `t0` in nothing
+    but view, cursor position, pending wrap, pen and dirty flags (`E`).  Every size with `cols ≤ 65536`. -/
+theorem C11_buffer_dump (b : Buffer) (t0 : Terminal) (hb : BInv b = true) (hc : b.cols = t0.cols)
+    (hr : b.rows = t0.rows) (hok : viewOKb b.view = true) (hcols : t0.cols ≤ 65536)
+    (h0 : TInv t0 = true) (hm : DMode t0)
+    (hblank : t0.buffer.view = List.replicate t0.rows (Line.blank t0.cols Pen.default))
+    (hcur : t0.cursor.col = 0 ∧ t0.cursor.row = 0) (hpen : t0.pen = Pen.default) :
+    ∃ d t1, b.dump = some d ∧ Feeds d t0 t1 ∧ t1.buffer.view = b.view ∧ E t1 = E t0
+      ∧ TInv t1 = true ∧ DMode t1 :=
+  buffer_dump b t0 hb hc hr (viewOK_of_b hok) hcols h0 hm hblank hcur hpen
+
+/-- `Feeds` is what it says at `Vt` level -/
+theorem C11_feeds_iff (s : List Nat) (t t' : Terminal) :
+    Feeds s t t' ↔ ∀ q : Parser, q.state = .Ground → PInv q = true →
+      ∃ q', Vt.feedAll ⟨q, t⟩ s = some ⟨q', t'⟩ ∧ q'.state = .Ground ∧ PInv q' = true :=
+  ⟨fun h q h1 h2 => h q ⟨h1, h2⟩, fun h q hq => h q hq.1 hq.2⟩
+
+/-- **C11, restore half, PRIMARY screen with default saved contexts** (`C11_dump_full` restricted by
+    decidable hypotheses; everything else is arbitrary): any state satisfying the global invariant whose
+    parser registers have the shape of their state (both hold for every reachable state), showing the
+    primary screen, with the two saved cursor contexts in their default state (dump steps 3–6 then emit
+    only `ESC [ m`), cells and pens well-formed (`viewOKb`, `penOKb`: printable characters, `u8` colour
+    components, five attribute bits — what every history produces), `cols ≤ 65534`, `rows ≤ 65535`
+    (finding KF6), and the cursor inside the scroll region when origin mode is on (so `cursorStepFaithful`
+    holds trivially).  ARBITRARY: view content (any characters, pens, wrap marks, REP runs), scrollback,
+    tab stops, margins, origin mode, cursor position incl. the wrap-pending column, visibility, pen,
+    character sets, insert / auto-wrap / new-line / cursor-key modes, and the parser cut in any of its 14
+    states.  Then `dump()` fed to a fresh terminal of the same size restores the state up to `normD`. -/
+theorem C11_dump_primary_partial (s : Vt) (hinv : Inv s = true) (hreg : PRegOK s.parser = true)
+    (hprim : s.terminal.activeBufferType = .primary)
+    (hs : s.terminal.savedCtx.isDefault = true) (ha : s.terminal.alternateSavedCtx.isDefault = true)
+    (hcells : viewOKb s.terminal.buffer.view = true)
+    (hpens : (penOKb s.terminal.pen && penOKb s.terminal.savedCtx.pen && penOKb s.terminal.alternateSavedCtx.pen) = true)
+    (hcols : s.terminal.cols < 65535) (hrows : s.terminal.rows ≤ 65535)
+    (hinside : s.terminal.originMode = false
+      ∨ (s.terminal.topMargin ≤ s.terminal.cursor.row ∧ s.terminal.cursor.row ≤ s.terminal.bottomMargin)) :
+    ∃ r, restoreOf s = some r ∧ normD r = normD s := by
+  simp only [Bool.and_eq_true] at hpens
+  have hi := hinv
+  simp only [Inv, Bool.and_eq_true] at hi
+  exact restore_of_dump s hinv hreg
+    (dump_primary s.terminal
+      ⟨hi.2, hprim, viewOK_of_b hcells, penOK_of_b hpens.1.1, hcols, hrows, hinside⟩
+      hs (penOK_of_b hpens.1.2) ha (penOK_of_b hpens.2))
+
+/-- the hypotheses of `C11_dump_primary_partial` imply the two side conditions of `C11_dump_full` -/
+theorem C11_primary_not_excepted (t : Terminal) (hprim : t.activeBufferType = .primary)
+    (hinside : t.originMode = false ∨ (t.topMargin ≤ t.cursor.row ∧ t.cursor.row ≤ t.bottomMargin)) :
+    resizedOnAlt t = false ∧ cursorStepFaithful t = true := by
+  refine ⟨by simp [resizedOnAlt, hprim], ?_⟩
+  simp only [cursorStepFaithful, cursorOutsideRegion, Bool.or_eq_true, Bool.not_eq_true',
+    Bool.and_eq_false_iff, Bool.or_eq_false_iff, decide_eq_false_iff_not]
+  left
+  rcases hinside with h | h
   · exact Or.inl h
   · exact Or.inr ⟨by omega, by omega⟩
 
@@ -350,5 +418,41 @@ example : ∃ s, exState = some s ∧
     ∃ d q, s.parser.dump = some d ∧ pfeedAll Parser.new d = some (q, []) ∧ normP q = normP s.parser := by
   refine ⟨exState.get exState_isSome, (Option.some_get exState_isSome).symm, ?_⟩
   exact C11_parser_dump _ Parser.new (by decide +kernel) (by decide +kernel) rfl (by decide +kernel)
+
+
+/-! ### `C11_dump_primary_partial` applies to a concrete non-trivial state -/
+
+/-- 9x4, primary screen, default saved contexts: red bold text with a run of 14 equal characters that
+    soft-wraps (REP + wrap mark), a second pen on the next row, a cleared and an added tab stop, margins
+    2..4 with origin mode, the drawing set in G1 and shifted in, insert and new-line mode, application
+    cursor keys, hidden cursor, the cursor parked wrap-pending at the end of row 2 inside the region, and
+    the input cut inside `CSI 12;3` -/
+def exPHist : List HOp :=
+  [.feedStr [esc, 0x5b, 0x33, 0x31, 0x3b, 0x31, 0x6d],                                   -- CSI 31;1m
+   .feedStr [0x61, 0x61, 0x61, 0x61, 0x61, 0x61, 0x61, 0x61, 0x61, 0x61, 0x61, 0x61, 0x61, 0x61, 0x0d, 0x0a], -- a×14 CR LF
+   .feedStr [esc, 0x5b, 0x34, 0x34, 0x6d, 0x78, 0x79, 0x7a, 0x7a, 0x7a, 0x7a, 0x7a, 0x7a],      -- CSI 44m xyzzzzzz
+   .feedStr [esc, 0x5b, 0x33, 0x47, esc, 0x48, esc, 0x5b, 0x39, 0x47, esc, 0x5b, 0x67],        -- CSI 3G HTS CSI 9G CSI g
+   .feedStr [esc, 0x29, 0x30, 0x0e, esc, 0x5b, 0x34, 0x3b, 0x32, 0x30, 0x68],                 -- ESC )0 SO CSI 4;20h
+   .feedStr [esc, 0x5b, 0x3f, 0x31, 0x68, esc, 0x5b, 0x3f, 0x32, 0x35, 0x6c],                 -- CSI ?1h CSI ?25l
+   .feedStr [esc, 0x5b, 0x32, 0x3b, 0x34, 0x72, esc, 0x5b, 0x3f, 0x36, 0x68],                 -- CSI 2;4r CSI ?6h
+   .feedStr [esc, 0x5b, 0x32, 0x3b, 0x39, 0x48, 0x71],                                      -- CSI 2;9H q  (wrap pending)
+   .feedStr [esc, 0x5b, 0x31, 0x32, 0x3b, 0x33]]                                           -- CSI 12;3  (cut)
+
+def exPState : Option Vt := (Vt.new 9 4 (some 5)).bind fun v => runHist v exPHist
+
+theorem exPState_isSome : exPState.isSome = true := by decide +kernel
+
+/-- the state is as described (non-default in every component the theorem leaves arbitrary), satisfies
+    every hypothesis of `C11_dump_primary_partial`, hence its dump restores it -/
+example : ∃ s r, exPState = some s
+    ∧ s.terminal.pendingWrap = true ∧ s.terminal.originMode = true ∧ s.terminal.topMargin = 1
+    ∧ s.terminal.tabs ≠ Tabs.new 9 ∧ s.parser.state = .CsiParam
+    ∧ restoreOf s = some r ∧ normD r = normD s := by
+  have hs := Option.some_get exPState_isSome
+  obtain ⟨r, h1, h2⟩ := C11_dump_primary_partial (exPState.get exPState_isSome)
+    (by decide +kernel) (by decide +kernel) (by decide +kernel) (by decide +kernel) (by decide +kernel)
+    (by decide +kernel) (by decide +kernel) (by decide +kernel) (by decide +kernel) (by decide +kernel)
+  exact ⟨_, r, hs.symm, by decide +kernel, by decide +kernel, by decide +kernel, by decide +kernel,
+    by decide +kernel, h1, h2⟩
 
 end Avt.Props.C11
